@@ -223,6 +223,12 @@ pub fn check(s: &'static dyn Proto, c: &Case, st: &mut Stats, _k: &KnownFindings
             cands.push((format!("fresh:{}#{k}", f.name), fieldmap::splice(&r, f, &v)));
         }
     }
+    // (4) several bytes of one field altered at once (cancelling / sum-preserving / permuting)
+    for f in &fields {
+        for (name, x) in fieldmap::multi_byte_mutants(&r, f.off, f.len, c.subst_mode != 0) {
+            cands.push((format!("multi:{}:{name}", f.name), x));
+        }
+    }
     // dedupe; drop anything byte-equal to a genuine answer
     let mut seen: HashSet<Vec<u8>> = HashSet::new();
     seen.insert(r.clone());
@@ -279,7 +285,7 @@ pub const BUDGET: Budget = Budget {
 pub fn run(cfg: &RunCfg) -> (Outcome, EvidenceExtra) {
     let out = run_property(cfg, "C04", crate::suites::suites20(), BUDGET, |s| strategy(cfg, s), check);
     let ev = EvidenceExtra {
-        rule: "per generated honest login with genuine response R (and genuine second answer R'): mutants = single-byte substitutions at EVERY offset of R (quick: xor 0x01, xor 0x80 and one generated value per offset; thorough: all 255 values per offset, or 8 bit flips + 8 generated values for the slow P-384/P-521 suites), all 2^6-1 field-wise mixes of R with each of 7 other responses (R', other session, other user, other server setup, fake record, other user's record or other credential id for this very request), each of the 6 fields replaced by a fresh valid value. Each mutant is decoded and given to a clone of the pending client state; any Ok is a violation unless the mutant re-encodes to R or R' (alias, left to C10). R and R' must be accepted. evaluation = one mutant; non-trivial = mutants that decode and reach ClientLogin::finish; mutants deduplicated per case, cases distinct by hash".into(),
+        rule: "per generated honest login with genuine response R (and genuine second answer R'): mutants = single-byte substitutions at EVERY offset of R (quick: xor 0x01, xor 0x80 and one generated value per offset; thorough: all 255 values per offset, or 8 bit flips + 8 generated values for the slow P-384/P-521 suites), all 2^6-1 field-wise mixes of R with each of 7 other responses (R', other session, other user, other server setup, fake record, other user's record or other credential id for this very request), each of the 6 fields replaced by a fresh valid value, and per field multi-byte alterations whose differences cancel under XOR or preserve the byte sum or the multiset of bytes (same bit flipped in adjacent bytes and in first+last byte, adjacent transpositions, +1/-1 pairs, 0f/f0/ff triples, rotation, reversal). Each mutant is decoded and given to a clone of the pending client state; any Ok is a violation unless the mutant re-encodes to R or R' (alias, left to C10). R and R' must be accepted. evaluation = one mutant; non-trivial = mutants that decode and reach ClientLogin::finish; mutants deduplicated per case, cases distinct by hash".into(),
         assumptions: vec!["MAC forgeries that were not generated are out of reach".into()],
         exhaustive: Some(false),
         extra: [("exhaustive_part".to_string(), json!("offset x value substitutions are exhaustive in the thorough tier for the ristretto255/curve25519/P-256 suites"))].into_iter().collect(),
